@@ -689,6 +689,7 @@ func TestVerif_C47_Backends(t *testing.T) {
 				w.addrs = append(w.addrs, a)
 			}
 		}
+		w.busy = []uint64{rapid.SampledFrom(c47Apps).Draw(rt, "busy0"), rapid.SampledFrom(c47Apps).Draw(rt, "busy1")}
 		w.logf("genesis: %d accounts", len(genesis))
 		// the freshly initialised stores must already agree (genesis accounts, online entries, totals, round params)
 		w.readScoped(0, "init", -1)
